@@ -41,6 +41,7 @@ func (pr *Program) VerifyFunc(fi *FuncInfo) (rep *FuncReport) {
 	x.propTag = c.Prop()
 	x.fnTag = pr.fnTagOf(fi)
 	x.nopanicMode = c.NoPanic
+	x.selfFn = fi
 	defer func() {
 		if r := recover(); r != nil {
 			if ep, ok := r.(execPanic); ok {
@@ -181,6 +182,7 @@ func (pr *Program) VerifyFunc(fi *FuncInfo) (rep *FuncReport) {
 				sc2 := *sc
 				sc2.results = e.Vals
 				es := e.S.Clone()
+				x.bindPostLets(es, c, &sc2)
 				var g *Term
 				if cl.Kind == "failsif" {
 					// old(E) ==> err != nil
@@ -213,6 +215,7 @@ func (pr *Program) VerifyFunc(fi *FuncInfo) (rep *FuncReport) {
 				sc2 := *sc
 				sc2.results = e.Vals
 				es := e.S.Clone()
+				x.bindPostLets(es, c, &sc2)
 				g := x.evalClause(es, cl, &sc2)
 				reach = Or(reach, And(es.PC, g))
 			}
@@ -413,6 +416,7 @@ func (x *Exec) applyContract(s *State, fi *FuncInfo, recv *Value, args []*Value,
 			}
 		}
 	}
+	x.bindPostLets(s, c, sc)
 	for _, cl := range c.Clauses {
 		switch cl.Kind {
 		case "ensures":
@@ -521,4 +525,19 @@ func sumInstances(ts ...*Term) *Term {
 		}
 	}
 	return And(out...)
+}
+
+// bindPostLets evaluates the contract's letpost bindings in an exit state.
+func (x *Exec) bindPostLets(es *State, c *Contract, sc *specCtx) {
+	if len(c.PostLets) == 0 {
+		return
+	}
+	nb := map[string]*Value{}
+	for k, v := range sc.bound {
+		nb[k] = v
+	}
+	sc.bound = nb
+	for _, l := range c.PostLets {
+		nb[l.Tag] = x.evalSpec(es, l.Expr, sc)
+	}
 }
